@@ -7,7 +7,7 @@ use std::sync::Arc;
 use vl_model::ctx::{hash64, load_replay, ncpu, parallel, Acc, Args, Ctx};
 use vl_model::pt::{self, Fail};
 use vl_model::sock::{Scratch, Server};
-use vl_model::svc::t_service;
+use vl_tsvc::t_service;
 use vl_model::wire::*;
 
 use crate::c01::{self, closes, style_of};
